@@ -4,11 +4,23 @@ every C02 run -> lean/Generated/WireEnums.lean.  The decoders of the Lean model 
 the code points of the standard (Wire/Spec.lean), so a changed enum re-opens the obligation."""
 from __future__ import annotations
 
+import os
+import sys
+
 import gen_lean
 
 
+def _c02_run() -> bool:
+    """WireEnums.lean is written only by a C02 check (`vcheck.py C02 ...`) or on explicit request
+    (VERIF_GEN_WIRE=1): builders of other properties run `gen_lean.py` against *their* worktrees in parallel and
+    would otherwise flip this file (and break the `tables` obligation of C02) under a concurrent C02 build."""
+    return os.environ.get("VERIF_GEN_WIRE") == "1" or any(a.upper() == "C02" for a in sys.argv[1:])
+
+
 @gen_lean.register(props=["C02"])
-def gen_wire_enums():
+def gen_wire_enums(force=False):
+    if not (force or _c02_run()):
+        return
     from flexstack.geonet import basic_header, service_access_point as sap, gn_address, mib
     body = "namespace Generated.WireEnums\n"
     for mod, names in ((basic_header, ["BasicNH", "LTbase"]),
